@@ -7,8 +7,9 @@ from .env import decide, cross_check, Inconclusive, now
 
 
 class Prover:
-    def __init__(self, R, tier):
+    def __init__(self, R, tier, cross_order=("cvc5", "z3-4.8.12")):
         self.R, self.tier = R, tier
+        self.cross_order = cross_order
         self.cap = 60 if tier == "quick" else 600
         self.cross_cap = 15 if tier == "quick" else 120
 
@@ -44,7 +45,7 @@ class Prover:
                 continue
             if st == "unsat":
                 try:
-                    cross = cross_check(solver, "unsat", self.cross_cap, first_only=(self.tier == "quick"))
+                    cross = cross_check(solver, "unsat", self.cross_cap, which=self.cross_order, first_only=(self.tier == "quick"))
                 except Inconclusive as e:
                     R.add(oid, "inconclusive", detail=str(e), **info)
                     results[name] = "inconclusive"
